@@ -133,6 +133,12 @@ def shard(p):
                 if not same:
                     continue
                 eb = rng.choice(same)
+                if rng.random() < 0.35:
+                    # ... or the SAME unit under two prefixes (km/m, mg/kg): a tool may refuse the mix; if it accepts it, the ratio is a
+                    # power of ten and the compound is still no lone scale (seed C09-h: the pair cancels silently to 1)
+                    alts = [z for z in V.by_key[ea["key"]] if z["prefix"] != ea["prefix"]]
+                    if alts:
+                        eb = rng.choice(alts)
                 ratio = V.factors_si([(ea, 1)])[0] / V.factors_si([(eb, 1)])[0]
                 if form == 6:
                     u1, u2 = rng.choice(["%s*%s/%s", "%s/%s*%s"]) , w2
